@@ -356,7 +356,7 @@ func genOpt02(t *rapid.T, name string) Opt16 {
 	return o
 }
 
-var c02Hostile = []string{"http://a\xff\xfe/", "http://\xff\xff\xff/x", "foo://\xff\xfe\xfd/", "file://h", "file:", "file:/x", "foo:/x", "http://h", "http://[::1", "http://[", "http://]", "http://%", "http://%ff/", "http://h/%", "%", "\x00", "a:\x00", "//", "///", "\\\\", "[", "@", ":", "?", "#",
+var c02Hostile = []string{"http://[1:2:3:4:5:6:1.2.3.4.5]/", "http://[1:2:3:4:5:6:7:8:9:a]/", "http://[::1.2.3.4.5.6.7.8.9]/", "http://[1:2:3:4:5:6:7:1.2.3.4]/", "http://a\xff\xfe/", "http://\xff\xff\xff/x", "foo://\xff\xfe\xfd/", "file://h", "file:", "file:/x", "foo:/x", "http://h", "http://[::1", "http://[", "http://]", "http://%", "http://%ff/", "http://h/%", "%", "\x00", "a:\x00", "//", "///", "\\\\", "[", "@", ":", "?", "#",
 	"http://u:p@h:1/p?q#f", "http://1.2.3.4.5.6.7.8/", "http://0x/", "http://./", "http://../", "http://h:99999999999999999999/", "http://h:/", "file:///C|/", "file://C|/", "C|/", "/C|", "..", "../..", "/..", "?", "#", "x:y", "x:/", "x://", "x:///", "blob:", "http://xn--/", "http://xn--a/", "http://a.b.c.d.e.f.g/", "http://a..b/", "http://.a/"}
 
 func genArg02(t *rapid.T, label string) string {
